@@ -198,8 +198,4 @@ func suites(tier string) []hlib.Suite {
 	return []hlib.Suite{suite(1, 3, 7), suite(4, 4, 4)}
 }
 
-func main() {
-	// T.Time records into the process-wide metrics instance (f1.New initialises it)
-	metrics.Init(true)
-	hlib.EnumMain("C20", suites)
-}
+func main() { hlib.EnumMain("C20", suites) } // hlib initialises the process-wide metrics instance T.Time needs
